@@ -264,6 +264,7 @@ func ruleCountVotes() *Rule {
 				return sp.Val(pt, 0) == 1 && sp.Val(pt, 1) != GT && sp.Val(pt, 2) == 1
 			}, nil, "vote counted only if granted, not stale, and from a current voter")
 			out = append(out, freshCounter(p, id, "(*Raft).sendRequestVoteToPeers", "(*Raft).sendRequestVote", 2)...)
+			out = append(out, counterNotForwarded(p, id, "(*Raft).sendRequestVote", 2)...)
 			return out
 		},
 	}
@@ -409,4 +410,49 @@ func ruleLeaderID() *Rule {
 			return out
 		},
 	}
+}
+
+// counterNotForwarded checks that the per-round counter parameter (0-based index argIdx, receiver
+// excluded) of fn is only read, incremented, compared with nil or dropped — never handed on to another
+// call or goroutine: a reply handler that forwards its round's counter lets one peer be counted twice.
+func counterNotForwarded(p *Program, rule, fnName string, argIdx int) []Obligation {
+	fn := p.Func(fnName)
+	if fn == nil || argIdx+1 >= len(fn.Params) {
+		return missing(rule, fnName)
+	}
+	par := fn.Params[argIdx+1]
+	ob := Obligation{Rule: rule, Construct: "round counter *" + par.Name() + " is not handed on by " + fnName, Pos: p.Pos(fn.Pos())}
+	seen := map[ssa.Value]bool{}
+	var bad []string
+	var walk func(v ssa.Value)
+	walk = func(v ssa.Value) {
+		if seen[v] || v.Referrers() == nil {
+			return
+		}
+		seen[v] = true
+		for _, r := range *v.Referrers() {
+			switch x := r.(type) {
+			case *ssa.UnOp, *ssa.BinOp, *ssa.DebugRef, *ssa.If:
+			case *ssa.Store:
+				if x.Val == v {
+					bad = append(bad, "stored at "+p.InstrPos(x))
+				}
+			case *ssa.Phi:
+				walk(x)
+			case ssa.CallInstruction:
+				bad = append(bad, "passed to "+x.Common().String()+" at "+p.InstrPos(x))
+			default:
+				bad = append(bad, fmt.Sprintf("used by %T at %s", r, p.InstrPos(r)))
+			}
+		}
+	}
+	walk(par)
+	if len(bad) > 0 {
+		ob.Verdict = Violated
+		ob.Detail = "the counter of this round escapes from the reply handler: a second reply of the same peer (a retry, a forwarded request) is counted in the same round, so the count is no longer a number of distinct voters"
+		ob.Facts = bad
+	} else {
+		ob.Verdict, ob.Detail = Discharged, "only loaded, incremented and compared with nil"
+	}
+	return []Obligation{ob}
 }
